@@ -42,6 +42,22 @@ NOTES = {
     "C08b-2": "first missed: scenario on a populated store (other functions' results must keep being served)",
     "C08b-3": "first missed: scenario with a partition merged on the partition of a nested memento call",
     "C10b-3": "first missed: corpus with handled non-memoized failing sub-calls (single and batch)",
+    "C09b-1": "first crashed the harness (it replaced the mutex table): logging now wraps _mutex_for_invocation; reached by the long-flight scenario (one call in flight across 1100 other invocations)",
+    "C09b-3": "first missed: family C (in-memory backend, function-call granularity inside the storage modules)",
+    "C11b-1": "first crashed the harness (decoded runtime None): rendering now tolerant, the round trip flags it",
+    "C12b-3": "first missed: module names starting with 'm' (and other first characters)",
+    "C13b-1": "first missed: event 'a builtin name is shadowed by a function of the module'",
+    "C13b-2": "first missed: version queries for subsets of the live objects at every position; directed A -> B -> A with an unused clone",
+    "C14b-3": "first missed: local variable named like the attribute; memento functions in the helper module",
+    "C15b-3": "first missed: store re-opened in a new session with a subset cached again; values now depend on the argument; worlds run in their own environment (C05 caught it from the start)",
+    "C16b-1": "first missed: directed programs with further calls prevented at an inner edge",
+    "C17b-1": "first missed: keys assigned more than once while staging on disk, equal values under several keys",
+    "C17b-2": "first missed: up to 6 keys holding distinct values of one kind, staged on disk and returned again",
+    "C17b-3": "first missed: partitions built from a defaultdict",
+    "C18b-2": "first missed: repositories whose configuration has clusters next to an explicit clusters argument",
+    "C18b-3": "first missed: directory names with & < > in template parameters",
+    "C19b-2": "first missed: store with missing data objects opened read-only",
+    "C19b-3": "first missed: cluster built from configuration dictionaries after a writable cluster on the same path in the same process",
     "C10b-5": "needs two threads (outside C10's sequential quantifier); now reached by the added concurrent sub-call scenario",
 }
 rows = []
